@@ -312,7 +312,7 @@ func (matrix *DenseFloat64Matrix) ConstSlice(rfrom, rto, cfrom, cto int) ConstMa
 }
 func (matrix *DenseFloat64Matrix) ConstRow(i int) ConstVector {
   var v []float64
-  if matrix.transposed {
+  if matrix.transposed || matrix.cols == 0 {
     v = make([]float64, matrix.cols)
     for j := 0; j < matrix.cols; j++ {
       v[j] = matrix.values[matrix.index(i, j)]
@@ -325,7 +325,7 @@ func (matrix *DenseFloat64Matrix) ConstRow(i int) ConstVector {
 }
 func (matrix *DenseFloat64Matrix) ConstCol(j int) ConstVector {
   var v []float64
-  if matrix.transposed {
+  if matrix.transposed && matrix.rows > 0 {
     j = matrix.index(0, j)
     v = matrix.values[j:j + matrix.rows]
   } else {
